@@ -1332,7 +1332,18 @@ class RecordSerializer(TypeSerializer[T, np.void]):
         )
 
     def read_numpy(self, stream: CodedInputStream) -> np.void:
-        return cast(np.void, self._read(stream))
+        # a nested record has to be read in its NumPy form as well
+        return cast(
+            np.void,
+            tuple(
+                (
+                    serializer.read_numpy(stream)
+                    if isinstance(serializer, RecordSerializer)
+                    else serializer.read(stream)
+                )
+                for _, serializer in self._field_serializers
+            ),
+        )
 
 
 # Only used in the header
